@@ -17,6 +17,10 @@ func Sink1(x any)               {}
 func Sinkv2(a string, xs ...any) {}
 func Sink3(x any)               {}
 func Sink4(x any)               {}
+func Sink5(x any)               {}
+func Sink6(x any)               {}
+func Sink7(x any)               {}
+func Sink8(x any)               {}
 func Cond() bool                { return false }
 func Sanitize1(x string) string { return "" }
 func Validate1(x any) bool      { return false }
@@ -78,6 +82,10 @@ func Sink1(x any)               { record("1", x) }
 func Sinkv2(a string, xs ...any) { record("2", a); record("2", xs) }
 func Sink3(x any)               { record("3", x) }
 func Sink4(x any)               { record("4", x) }
+func Sink5(x any)               { record("5", x) }
+func Sink6(x any)               { record("6", x) }
+func Sink7(x any)               { record("7", x) }
+func Sink8(x any)               { record("8", x) }
 func Probe(id int, x any)       {}
 func Enter(name string)         {}
 
